@@ -32,3 +32,6 @@ CLAIMED["C02"] = ("other", "effects/freshness analysis over the call cone, AST c
 CLAIMED["C03"] = ("other", "symbolic evaluation of idc()/rule_2 + truth tables of the conditioning set and query triples + inherited ID/C04/R13.4 rules",
     "Refinement to IDC: rule-2 graph (edges into X and out of z removed), ALL-outcomes quantifier, conditioning set X ∪ (Z∖{z}), exchange (Y, X∪{z}, Z∖{z}), base case identify(Y∪Z, X) normalised over Y; the internal ValueError is unreachable.",
     "Value identity is the IDC theorem; separation oracle is C04; ID is C01/C02 (their rules are re-run inside this check).", "§3 C03")
+CLAIMED["C06"] = ("other", "constructor census on symbolically evaluated paths + provenance of population tags / intervention arguments + membership formulas implying 'not a transport node'",
+    "ID/IDC can only build P(v | predecessors) over nodes of the current graph; every TRSO leaf is tagged with the current/target domain and intervened only with Z_i ∩ X of its own domain; no transport node reaches a summation range or a distribution; ID*'s only leaf builder applies one intervention set to all variables.",
+    "Vocabulary clause only (which constructors can run). Assumes districts and query sets contain no transport node; that ID's conditionals are the right observational terms is C01.", "§3 C06")
